@@ -50,6 +50,9 @@ pub enum Role {
         child_reads: bool,
         /// children whose index is in this list fail (PanicIf)
         failing: Vec<Word>,
+        /// even children halt from inside a loop of their own; odd children record the counter
+        /// of the loop that encloses the Compute
+        own_loop_exit: bool,
     },
     /// PredicateExists on the given hash words
     Pex([Word; 4]),
@@ -97,6 +100,7 @@ pub struct Abstract {
     pub faults: Vec<Fault>,
     pub shape: String,
     pub beacons: bool,
+    pub decoy_seed: u64,
 }
 
 #[derive(Clone, Debug)]
@@ -355,6 +359,7 @@ pub fn gen_abstract(rng: &mut Rng, cfg: &GenCfg) -> Abstract {
                             breadth,
                             child_reads: rng.chance(1, 2),
                             failing,
+                            own_loop_exit: rng.chance(1, 3),
                         }
                     }
                     7 if cfg.failures => Role::Fail(rng.below(3) as u8),
@@ -402,6 +407,7 @@ pub fn gen_abstract(rng: &mut Rng, cfg: &GenCfg) -> Abstract {
         // op soup can end a program early (Halt, ComputeEnd, jumps) or run parts of it in
         // compute children: begin/end beacons would misreport such nodes
         beacons: cfg.beacons && !cfg.soup,
+        decoy_seed: rng.next_u64(),
     }
 }
 
@@ -469,6 +475,15 @@ pub fn node_program(abs: &Abstract, pi: usize, a: usize) -> Vec<Op> {
     if abs.beacons {
         v.extend(frag_beacon(true, 0, BEACON_ROW + 2 * t));
     }
+    // decoys for whoever scans the bytes instead of the parsed ops: a Halt that is jumped
+    // over, immediates made of state-read and Push opcode bytes
+    match crate::rng::derive(abs.decoy_seed, &[t as u64]) % 8 {
+        0 => v.extend([PUSH(2), PUSH(1), JMPIF(), HLT()]),
+        1 => v.extend([PUSH(0x8283_8283_8283_8283u64 as i64), POP()]),
+        2 => v.extend([PUSH(0x0101_0101_0101_0101), POP()]),
+        3 => v.extend([PUSH(0x0182_0183_8001_8101), POP()]),
+        _ => {}
+    }
     match &p.roles[a] {
         Role::Digest => {
             v.extend(frag_mem_to_stack());
@@ -495,9 +510,14 @@ pub fn node_program(abs: &Abstract, pi: usize, a: usize) -> Vec<Op> {
             breadth,
             child_reads,
             failing,
+            own_loop_exit,
         } => {
             v.extend(frag_mem_to_stack());
             v.extend(frag_hash_stack()); // 4 words
+            if *own_loop_exit {
+                // an enclosing one-iteration loop whose counter the odd children read
+                v.extend([PUSH(1), PUSH(1), REP()]);
+            }
             v.push(PUSH(*breadth));
             v.push(COM());
             // child: stack = parent ++ [i]
@@ -518,11 +538,23 @@ pub fn node_program(abs: &Abstract, pi: usize, a: usize) -> Vec<Op> {
                 ]);
                 v.extend(frag_clear_mem());
             }
-            // memory = [i, tag ^ i-th hash word]
+            if *own_loop_exit {
+                // child: stack = parent ++ [i]
+                // odd i: jump over the even branch
+                v.extend([PUSH(12), PUSH(1), DUPF(), PUSH(2), MOD(), JMPIF()]);
+                // even i: store a marker, then halt from inside an own count-down loop
+                v.extend([PUSH(1), ALOC(), POP(), PUSH(7), PUSH(0), REP(), PUSH(1), HLTIF(), REPE(), PUSH(0), POP()]);
+                // odd i: memory = [counter of the enclosing loop]
+                v.extend([PUSH(1), ALOC(), POP(), REPC(), PUSH(0), STO()]);
+            }
+            // append [i, tag] to the child's memory
             v.extend([PUSH(2), ALOC(), POP()]);
-            v.extend([DUP(), PUSH(0), STO()]); // mem[0] = i
-            v.extend([PUSH(t), PUSH(1), STO()]);
+            v.extend([DUP(), PUSH(0), ALOC(), PUSH(2), SUB(), STO()]);
+            v.extend([PUSH(t), PUSH(0), ALOC(), PUSH(1), SUB(), STO()]);
             v.push(COME());
+            if *own_loop_exit {
+                v.push(REPE());
+            }
             v.push(PUSH(t));
         }
         Role::Pex(h) => {
